@@ -408,8 +408,10 @@ def rule_pointers(ctx, prop='C04'):
     cfg = ctx.cfg(f)
     for fld, src in (('self.fs_height', 'height'), ('self.fs_tx_count', 'tx_count')):
         asg = q.assigns(ctx, f, fld)
+        live = {norm(s_.value) for s_ in f.own_nodes() if isinstance(s_, ast.Assign) and ctx.res.canon(s_.targets[0], f) == 'self.state'
+                and isinstance(s_.value, ast.Name)} | {'self.state'}
         ok = len(asg) == 1 and isinstance(asg[0].value, ast.Attribute) and asg[0].value.attr == src and \
-            norm(asg[0].value.value) in ('state', 'self.state')
+            norm(asg[0].value.value) in live
         if ok:
             ok = pr.path_avoiding(cfg, [cfg.entry], [cfg.exit], {cfg.node(asg[0])}) is None
         ctx.check(ok, f'{prop}.POINTERS', ctx.key(f, None, fld), f'{fld} re-initialised from the loaded state on every path',
@@ -444,11 +446,19 @@ def rule_pointers(ctx, prop='C04'):
     return n + 1
 
 
-def dict_literal_of(func, var):
-    for n in func.own_nodes():
-        if isinstance(n, ast.Assign) and isinstance(n.targets[0], ast.Name) and n.targets[0].id == var and isinstance(n.value, ast.Dict):
-            return n.value
-    return None
+def dict_literal_of(func, var=None):
+    '''The single dict literal assigned to a local in a state writer (whatever the local is called).'''
+    got = [n.value for n in func.own_nodes() if isinstance(n, ast.Assign) and isinstance(n.targets[0], ast.Name) and isinstance(n.value, ast.Dict)]
+    return got[0] if len(got) == 1 else None
+
+
+def decoded_state_var(func):
+    '''The local that holds the literal_eval'ed state dict in a state reader.'''
+    got = {n.targets[0].id for n in func.own_nodes() if isinstance(n, ast.Assign) and isinstance(n.targets[0], ast.Name)
+           and isinstance(n.value, ast.Call) and norm(n.value.func).endswith('literal_eval')}
+    if len(got) != 1:
+        raise AnalysisError(f'{func.key}: decoded state variable not found')
+    return got.pop()
 
 
 def rule_staterec(ctx, prop='C04'):
@@ -456,30 +466,31 @@ def rule_staterec(ctx, prop='C04'):
     # UTXO state
     w = ctx.func('db', 'DB.write_utxo_state')
     r = ctx.func('db', 'DB.read_utxo_state')
-    dl = dict_literal_of(w, 'state')
+    dl = dict_literal_of(w)
     if dl is None:
         raise AnalysisError(f'{w.key}: state dict literal not found')
+    sv = decoded_state_var(r)
     wmap = {}
     for k, v in zip(dl.keys, dl.values):
         kk = const_value(k)
         wmap[kk] = v.attr if isinstance(v, ast.Attribute) and norm(v.value) == 'self.state' else norm(v)
     ctor = [c for c in q.own_calls(r) if norm(c.func) == 'ChainState' and any(
-        isinstance(kw.value, ast.Subscript) and norm(kw.value.value) == 'state' for kw in c.keywords)]
+        isinstance(kw.value, ast.Subscript) and norm(kw.value.value) == sv for kw in c.keywords)]
     if len(ctor) != 1:
         raise AnalysisError(f'{r.key}: ChainState(...) built from the stored dict not found')
     required, optional, back = set(), set(), {}
     for kw in ctor[0].keywords:
         v = kw.value
-        if isinstance(v, ast.Subscript) and norm(v.value) == 'state':
+        if isinstance(v, ast.Subscript) and norm(v.value) == sv:
             k = const_value(v.slice)
             required.add(k)
             back[kw.arg] = k
-        elif isinstance(v, ast.Call) and isinstance(v.func, ast.Attribute) and v.func.attr == 'get' and norm(v.func.value) == 'state':
+        elif isinstance(v, ast.Call) and isinstance(v.func, ast.Attribute) and v.func.attr == 'get' and norm(v.func.value) == sv:
             k = const_value(v.args[0])
             optional.add(k)
             back[kw.arg] = k
     for node in r.own_nodes():
-        if isinstance(node, ast.Subscript) and norm(node.value) == 'state' and isinstance(node.ctx, ast.Load):
+        if isinstance(node, ast.Subscript) and norm(node.value) == sv and isinstance(node.ctx, ast.Load):
             k = const_value(node.slice)
             if isinstance(k, str):
                 required.add(k)
@@ -502,19 +513,20 @@ def rule_staterec(ctx, prop='C04'):
     # History state
     hw = ctx.func('hist', 'History.write_state')
     hr = ctx.func('hist', 'History.read_state')
-    dl = dict_literal_of(hw, 'state')
+    dl = dict_literal_of(hw)
     if dl is None:
         raise AnalysisError(f'{hw.key}: state dict literal not found')
+    hsv = decoded_state_var(hr)
     hwmap = {const_value(k): (ctx.res.canon(v, hw) or norm(v)) for k, v in zip(dl.keys, dl.values)}
     wrong, req = [], set()
     for s in hr.own_nodes():
         if isinstance(s, ast.Assign) and isinstance(s.targets[0], ast.Attribute) and norm(s.targets[0].value) == 'self':
             v = s.value
             k = None
-            if isinstance(v, ast.Subscript) and norm(v.value) == 'state':
+            if isinstance(v, ast.Subscript) and norm(v.value) == hsv:
                 k = const_value(v.slice)
                 req.add(k)
-            elif isinstance(v, ast.Call) and isinstance(v.func, ast.Attribute) and v.func.attr == 'get' and norm(v.func.value) == 'state':
+            elif isinstance(v, ast.Call) and isinstance(v.func, ast.Attribute) and v.func.attr == 'get' and norm(v.func.value) == hsv:
                 k = const_value(v.args[0])
             if k is not None and hwmap.get(k) != f'self.{s.targets[0].attr}':
                 wrong.append(f'self.{s.targets[0].attr}<-{k}<-{hwmap.get(k)}')
